@@ -29,22 +29,23 @@ type Profile struct {
 	PTrueish    float64 // bias conditions towards being true (conflict sets with several candidates)
 	PRemoved    float64 // probability that a rule is removed before instantiation
 	PStr        float64
-	PNoRetractSelf bool
+	POnce       float64 // probability that a rule gets a bare method-call action (no Forget) and retracts itself
+	PDep        float64 // probability that an assignment targets a location some condition reads
 }
 
 var profiles = map[string]*Profile{
-	"core": {Name: "core", MinRules: 2, MaxRules: 4, UseTop: true, DynSel: 0.3, PMethod: 0.25, PRetract: 0.08, PComplete: 0.04,
-		PSetter: 0.08, PHeavy: 0.1, Saliences: []int64{-2, -1, 0, 0, 1, 2}, MaxActs: 3, PStr: 0.15, PRemoved: 0.05},
+	"core": {Name: "core", PDep: 0.7, MinRules: 2, MaxRules: 4, UseTop: true, DynSel: 0.3, PMethod: 0.25, PRetract: 0.08, PComplete: 0.04,
+		PSetter: 0.08, PHeavy: 0.1, Saliences: []int64{-2, -1, 0, 0, 1, 2}, MaxActs: 3, PStr: 0.15, PRemoved: 0.05, POnce: 0.15},
 	"salience": {Name: "salience", MinRules: 3, MaxRules: 5, UseTop: true, DynSel: 0.1, PMethod: 0.1, PRetract: 0.25, PComplete: 0.02,
 		Saliences: []int64{-2147483648, -2147483647, -1, 0, 0, 1, 2, 2147483646, 2147483647, 7, 7, -7}, MaxActs: 2, PTrueish: 0.7},
-	"control": {Name: "control", MinRules: 2, MaxRules: 5, UseTop: true, DynSel: 0.1, PMethod: 0.1, PRetract: 0.45, PComplete: 0.25,
-		Saliences: []int64{-1, 0, 0, 1, 5}, MaxActs: 4, PTrueish: 0.6, PRemoved: 0.15},
+	"control": {Name: "control", PDep: 0.4, MinRules: 2, MaxRules: 5, UseTop: true, DynSel: 0.1, PMethod: 0.1, PRetract: 0.45, PComplete: 0.25,
+		Saliences: []int64{-1, 0, 0, 1, 5}, MaxActs: 4, PTrueish: 0.6, PRemoved: 0.15, POnce: 0.3},
 	"budget": {Name: "budget", MinRules: 1, MaxRules: 4, UseTop: true, DynSel: 0.1, PMethod: 0.1, PRetract: 0.1, PComplete: 0.1,
 		Saliences: []int64{-1, 0, 1}, MaxActs: 2, PTrueish: 0.8},
-	"memo": {Name: "memo", MinRules: 2, MaxRules: 5, UseTop: true, DynSel: 0.2, PMethod: 0.5, PRetract: 0.1, PComplete: 0.02,
+	"memo": {Name: "memo", PDep: 0.7, MinRules: 2, MaxRules: 5, UseTop: true, DynSel: 0.2, PMethod: 0.5, PRetract: 0.1, PComplete: 0.02,
 		PSetter: 0.15, PHeavy: 0.6, Saliences: []int64{-1, 0, 0, 1}, MaxActs: 3, PTrueish: 0.3},
-	"fault": {Name: "fault", MinRules: 2, MaxRules: 4, UseTop: true, DynSel: 0.4, PMethod: 0.3, PFault: 0.35, PRetract: 0.15, PComplete: 0.05,
-		Saliences: []int64{-1, 0, 0, 1}, MaxActs: 3, PTrueish: 0.4},
+	"fault": {Name: "fault", PDep: 0.5, MinRules: 2, MaxRules: 4, UseTop: true, DynSel: 0.4, PMethod: 0.3, PFault: 0.35, PRetract: 0.15, PComplete: 0.05,
+		Saliences: []int64{-1, 0, 0, 1}, MaxActs: 3, PTrueish: 0.4, POnce: 0.2},
 	"fetch": {Name: "fetch", MinRules: 2, MaxRules: 6, UseTop: true, DynSel: 0.2, PMethod: 0.3, PFault: 0.15, PRetract: 0.1, PComplete: 0.05,
 		Saliences: []int64{-3, -1, 0, 0, 0, 1, 1, 9}, MaxActs: 2, PTrueish: 0.5, PRemoved: 0.25, PStr: 0.2},
 }
@@ -56,6 +57,7 @@ type Gen struct {
 	names   []string
 	heavy   Expr // the shared Heavy(...) atom of this program, if any
 	sharedB Expr // a boolean sub-expression shared between rules
+	used    []loc // integer locations read by the conditions generated so far
 }
 
 func (g *Gen) chance(p float64) bool { return g.r.Float64() < p }
@@ -103,6 +105,7 @@ func (g *Gen) genInt(d int) (Expr, bool) {
 		default:
 			ls := g.intLocs()
 			l := ls[g.pick(len(ls))]
+			g.used = append(g.used, l)
 			return g.locPath(l), l.exact
 		}
 	}
@@ -252,6 +255,9 @@ func (g *Gen) genAction(self string) *Action {
 	default:
 		ls := g.intLocs()
 		l := ls[g.pick(len(ls))]
+		if len(g.used) > 0 && g.chance(g.p.PDep) {
+			l = g.used[g.pick(len(g.used))]
+		}
 		form := []string{"=", "=", "+=", "-=", "*="}[g.pick(5)]
 		var e Expr
 		var ex bool
@@ -332,6 +338,9 @@ func (g *Gen) discipline(p *Program) {
 			out = append(out, a)
 			switch a.Kind {
 			case "set":
+				if a.Once {
+					break
+				}
 				// a method-call action is itself remembered: name the fact so that it runs again next time
 				out = append(out, &Action{Kind: []string{"forget", "changed"}[g.pick(2)], Name: "F"})
 			case "asg":
@@ -369,8 +378,13 @@ func (g *Gen) Program() *Program {
 		g.sharedB = g.genBool(1)
 	}
 	p := &Program{}
+	g.used = nil
+	whens := make([]Expr, n)
 	for i := 0; i < n; i++ {
-		r := &Rule{Name: g.names[i]}
+		whens[i] = g.genBool(2)
+	}
+	for i := 0; i < n; i++ {
+		r := &Rule{Name: g.names[i], When: whens[i]}
 		if g.chance(0.8) {
 			r.HasSal = true
 			r.Sal = g.p.Saliences[g.pick(len(g.p.Saliences))]
@@ -378,12 +392,22 @@ func (g *Gen) Program() *Program {
 		if g.chance(0.3) {
 			r.Desc = fmt.Sprintf("rule number %d", i)
 		}
-		r.When = g.genBool(2)
 		na := 1 + g.pick(g.p.MaxActs)
 		for j := 0; j < na; j++ {
 			r.Then = append(r.Then, g.genAction(r.Name))
 		}
 		r.Removed = g.chance(g.p.PRemoved)
+		r.Bare = g.chance(0.5)
+		for _, a := range r.Then {
+			a.Bare = g.chance(0.5)
+		}
+		if g.chance(g.p.POnce) {
+			// F.Mark(<unique constant>) runs once per call: the rule retracts itself, the next call starts afresh
+			once := &Action{Kind: "set", Name: "Mark", E: CI(int64(i + 1)), Once: true}
+			pos := g.pick(len(r.Then) + 1)
+			r.Then = append(r.Then[:pos], append([]*Action{once}, r.Then[pos:]...)...)
+			r.Then = append(r.Then, &Action{Kind: "retract", Name: r.Name})
+		}
 		p.Rules = append(p.Rules, r)
 	}
 	g.discipline(p)
